@@ -153,7 +153,7 @@ Example C07_nonvacuous_slice :
   reply false [5; 8]%N [tg 8 5 3456007; tg 5 4 2160009] = [tg 5 4 2160009; tg 8 5 3456007].
 Proof.
   split; [repeat constructor|]. split; [repeat constructor; discriminate|].
-  repeat split; vm_compute; reflexivity.
+  split; [vm_compute; reflexivity|]. split; [vm_compute; reflexivity|]. split; vm_compute; reflexivity.
 Qed.
 
 Example C07_nonvacuous_slot :
@@ -164,10 +164,9 @@ Example C07_nonvacuous_slot :
   get_before_until_slot false epoch_len ex_eps 100 3456008 2160004 =
     Some [tg 8 7 3456010; tg 8 6 3456007; tg 8 5 3456007; tg 5 4 2160009; tg 5 3 2160004; tg 5 2 2160004].
 Proof.
-  split; [vm_compute; repeat constructor; discriminate|]. split.
-  - intros t Ht. vm_compute in Ht.
-    repeat (destruct Ht as [<-|Ht]; [vm_compute; discriminate|]). destruct Ht.
-  - split; vm_compute; reflexivity.
+  split; [apply slots_descb_sound; vm_compute; reflexivity|].
+  split; [apply slots_in_epochb_sound; vm_compute; reflexivity|].
+  split; vm_compute; reflexivity.
 Qed.
 
 Print Assumptions C07_slice.
